@@ -50,9 +50,10 @@ var (
 type Op struct {
 	Kind    string
 	Obj     *Obj
-	More    []*Obj      // further objects the operation reads (select)
-	Enabled func() bool // nil = always enabled
-	Quiesce bool        // enabled only when nothing else can run and no deadline is armed
+	More    []*Obj        // further objects the operation reads (select)
+	Enabled func() bool   // nil = always enabled
+	Quiesce bool          // enabled only when nothing else can run and no deadline is armed
+	Horizon time.Duration // Quiesce: deadlines further away than this do not count (0 = drain all)
 }
 
 type Thread struct {
@@ -99,6 +100,7 @@ type PointRec struct {
 	Kind       byte // 's' schedule, 'd' data, 'f' fault data
 	RunEnabled bool // 's': the running thread was still enabled (alt>0 is a preemption)
 	ClockIdx   int  // 's': index of the clock alternative, -1 if none
+	ClockDue   bool // 's': the earliest deadline is already due (firing needs no time to pass)
 	Chosen     int
 	FP         uint64
 	Step       int
@@ -112,13 +114,11 @@ func (p *PointRec) Cost(alt int) int {
 	}
 	switch p.Kind {
 	case 's':
-		if p.RunEnabled {
-			return 1
-		}
-		if alt == p.ClockIdx {
-			return 1
-		}
-		return 0
+		// every departure from the default deterministic scheduler (continue the
+		// running thread; else the lowest enabled thread id; the clock last) is one
+		// deviation: a preemption, a non-default pick after a block, or time passing
+		// while a thread could run.
+		return 1
 	case 'f':
 		return 1
 	}
@@ -441,7 +441,7 @@ func (r *Run) reschedule(self *Thread) {
 		}
 		alts = append(alts, others...)
 		clockIdx := -1
-		if r.clockArmed() {
+		if r.clockArmed() && !(len(alts) == 0 && r.quiescerBeyondClock()) {
 			clockIdx = len(alts)
 			alts = append(alts, r.clockT)
 		}
@@ -486,7 +486,7 @@ func (r *Run) reschedule(self *Thread) {
 		c := 0
 		if len(alts) > 1 {
 			r.current = self
-			c = r.choose(PointRec{N: len(alts), Kind: 's', RunEnabled: selfEnabled, ClockIdx: clockIdx})
+			c = r.choose(PointRec{N: len(alts), Kind: 's', RunEnabled: selfEnabled, ClockIdx: clockIdx, ClockDue: clockIdx >= 0 && r.clockDue()})
 			if c < 0 {
 				r.end(self)
 				return
@@ -620,6 +620,43 @@ func Yield() {
 }
 
 // ---- virtual clock ----
+
+// quiescerBeyondClock: some thread waits for quiescence with a horizon that ends
+// before the earliest armed deadline.
+func (r *Run) quiescerBeyondClock() bool {
+	var first time.Time
+	for _, e := range r.timers {
+		if e.active && (first.IsZero() || e.when.Before(first)) {
+			first = e.when
+		}
+	}
+	for _, t := range r.threads {
+		if !t.done && t.started && t.pending != nil && t.pending.Quiesce && t.pending.Horizon > 0 && first.After(r.now.Add(t.pending.Horizon)) {
+			return true
+		}
+	}
+	return false
+}
+
+// ArmedTimers is the number of armed deadlines (oracle use).
+func (r *Run) ArmedTimers() int {
+	n := 0
+	for _, e := range r.timers {
+		if e.active {
+			n++
+		}
+	}
+	return n
+}
+
+func (r *Run) clockDue() bool {
+	for _, e := range r.timers {
+		if e.active && !e.when.After(r.now) {
+			return true
+		}
+	}
+	return false
+}
 
 func (r *Run) clockArmed() bool {
 	for _, e := range r.timers {
@@ -819,6 +856,13 @@ func WithCancel(parent context.Context) (context.Context, context.CancelFunc) {
 func Quiesce() {
 	if r := Cur(); r != nil {
 		r.Point(Op{Kind: "quiesce", Quiesce: true})
+	}
+}
+
+// QuiesceWithin is Quiesce that leaves deadlines further away than h armed.
+func QuiesceWithin(h time.Duration) {
+	if r := Cur(); r != nil {
+		r.Point(Op{Kind: "quiesce", Quiesce: true, Horizon: h})
 	}
 }
 
